@@ -100,6 +100,8 @@ structure Inst where
   /-- the storage directory (operator id) and the number of the WAL file the next checkpoint seals -/
   dir : Nat := 0
   walNext : Nat := 0
+  /-- ghost: every table this instance has ever written -/
+  made : List Path := []
 deriving Repr
 
 structure State where
@@ -276,7 +278,8 @@ def step (s : State) : Act → Option State
     | none => none
     | some x =>
       if x.life = .alive ∧ ¬ s.used.contains t.uri then
-        some { setInst s i { x with current := t :: x.current, created := t.uri :: x.created } with
+        some { setInst s i { x with current := t :: x.current, created := t.uri :: x.created,
+                                     made := t.uri :: x.made } with
                files := .sst t.uri :: s.files, used := t.uri :: s.used }
       else none
   | .compact i rm add =>
@@ -285,7 +288,7 @@ def step (s : State) : Act → Option State
     | some x =>
       if x.life = .alive ∧ allFresh s.used (uris add) ∧ rm.all (fun u => (uris x.current).contains u) then
         some { setInst s i { x with current := x.current.filter (fun t => !rm.contains t.uri) ++ add,
-                                     created := uris add ++ x.created } with
+                                     created := uris add ++ x.created, made := uris add ++ x.made } with
                files := (uris add).map File.sst ++ s.files, used := uris add ++ s.used }
       else none
   | .ckpt i id wal =>
@@ -438,6 +441,27 @@ def runL (s : State) : List Act → Option State
   | a :: as => if inScopeL s a then
       match step s a with
       | some s' => runL s' as
+      | none => none
+    else none
+
+
+/-! ## scope of the concurrency theorem: any number of operators running at the same time, none reopened -/
+
+/-- The deployment without rescale and without restart: operators are opened empty at any moment, each in a storage
+directory of its own, and run concurrently; any of them may crash at any time (and is then not reopened); no instance
+is released inside a living process (D25); the job asks an operator to drop only checkpoints it has dropped. -/
+def inScopeN (s : State) : Act → Bool
+  | .openFresh _ _ _ dir => dir == s.insts.length
+  | .openFrom .. => false
+  | .release _ => false
+  | .retain i ids => retainOk s i ids
+  | _ => true
+
+def runN (s : State) : List Act → Option State
+  | [] => some s
+  | a :: as => if inScopeN s a then
+      match step s a with
+      | some s' => runN s' as
       | none => none
     else none
 
